@@ -18,6 +18,12 @@ CHECKS = {
  'C04': dict(level='model_checking', engine='seqmc', technique='exhaustive enumeration of (program point, query kind, path) on the implementation; answers compared with the reference model plus model-free consistency laws',
    text='Every query kind x every path of the universe is asked at every program point (before/inside/after nested build_file calls in all five modes) of every program of the bounded space, on every prior state the sweep reaches, in two regimes: full batteries everywhere, and one single probe query with nobody having looked before. Each answer (value or OSError subclass) must equal the reference model and the answers of each battery must satisfy the consistency laws (exists = is_file or is_dir, list_dir = existing children, walk agrees recursively, parents of existing paths are directories, error classes).',
    note='Latitudes: get_size of a directory is only required not to raise; order inside list_dir/walk results is normalised by sorting (walk top-down order is checked separately); directories that only hold the cache file are not observed.', design='4/C04'),
+ 'C10': dict(level='model_checking', engine='seqmc', technique='exhaustive enumeration of target depth x prior state x failure mode (incl. each mkdir failing, over-long components) on the implementation; contract monitors on the real file system plus reference-model comparison',
+   text='For every 1-node program (all five body modes plus user functions raising TypeError/OSError/RuntimeError objects), every initial tree and every mutation after a preparing build, and for 2-node nestings: monitors inside the body (target absent, parents exist, path argument is the absolute normalised str), right after the call (regular file holding the written bytes / target absent after a failure / same exception object), full batteries right after a caught failure (created parents gone at once) and the final tree (gone on disk), also with every mkdir of the library failing in turn and with over-long path components.',
+   note='Same trusted base as C01; mkdir faults are injected by wrapping os.mkdir at run time (E3).', design='4/C10'),
+ 'C14': dict(level='fault_enumeration', engine='faultmc', technique='deviation-bounded exhaustive fault enumeration on the implementation: one injected OSError at every k-th mutating library call of every build transition of the bounded sweep',
+   text='Every build transition of the bounded sweep is first run counting the mutating file-system calls the library makes before the commit (mkdir, rename, rmdir, replace, open-for-write), then re-run once per call k and errno (EIO, EACCES; for the cache file also write-after-n-bytes and close) with exactly that call failing. Uncaught: the rollback monitors of C02 must hold. Caught: value and tree must equal the reference model with the API call in progress failing in setup without effect (or the fault had no observable effect), foreign files untouched, and clean afterwards leaves the model tree.',
+   note='One deviation per run (two-fault sequences are not explored). Faults inside commit/roll back are outside the statement and not injected. remove/unlink are not injected (the property lists create-directory, move-aside and cache-write calls).', design='4/C14'),
 }
 NOT_YET = {}
 props = [json.loads(l)['id'] for l in open(V + '/properties.jsonl')]
@@ -52,6 +58,8 @@ m = {
  'engines': [
   {'name': 'seqmc', 'path': 'fbmc/history.py fbmc/checks/', 'serves_properties': [p for p in props if CHECKS.get(p, {}).get('engine') == 'seqmc'],
    'kind_free_text': 'explicit-state / exhaustive bounded enumeration of sequential histories executed on the real implementation, reference-model oracle'},
+  {'name': 'faultmc', 'path': 'fbmc/faults.py fbmc/checks/c14.py', 'serves_properties': [p for p in props if CHECKS.get(p, {}).get('engine') == 'faultmc'],
+   'kind_free_text': 'deviation-bounded fault injection (k-th mutating library call fails) on top of seqmc'},
  ],
  'checks': checks,
  'not_applicable': na,
